@@ -59,6 +59,7 @@ type c17bSrv struct {
 	// oneShot: a stream connection is closed by the upstream after every reply
 	// (an idle timeout of zero), so that a pooled connection is always dead
 	oneShot bool
+	nlate   int
 	udp     *net.UDPConn
 	tcp      net.Listener
 }
@@ -106,7 +107,26 @@ func c17bStart(t *testing.T, withTCP bool) *c17bSrv {
 			}
 			s.mu.Lock()
 			c := s.udpClass
+			first := s.nlate == 0
+			if c == "latefirst" {
+				s.nlate++
+			}
 			s.mu.Unlock()
+			if c == "latefirst" {
+				// answers made for the subnet of the request's ECS option; the first one of the series is sent
+				// only after the client has given up
+				if r := c17bForReply(buf[:n]); r != nil {
+					if first {
+						go func(r []byte, addr *net.UDPAddr) {
+							time.Sleep(450 * time.Millisecond)
+							_, _ = s.udp.WriteToUDP(r, addr)
+						}(r, addr)
+					} else {
+						_, _ = s.udp.WriteToUDP(r, addr)
+					}
+				}
+				continue
+			}
 			if r := pack(buf[:n], c); r != nil {
 				_, _ = s.udp.WriteToUDP(r, addr)
 			}
@@ -156,6 +176,30 @@ func c17bStart(t *testing.T, withTCP bool) *c17bSrv {
 		}
 	})
 	return s
+}
+
+// c17bForReply answers a TXT query with "for:<address of its ECS option>".
+func c17bForReply(b []byte) []byte {
+	req := new(dns.Msg)
+	if req.Unpack(b) != nil || len(req.Question) != 1 {
+		return nil
+	}
+	r := new(dns.Msg).SetReply(req)
+	r.Answer = append(r.Answer, &dns.TXT{Hdr: dns.RR_Header{Name: req.Question[0].Name, Rrtype: dns.TypeTXT, Class: dns.ClassINET, Ttl: 60},
+		Txt: []string{"for:" + c17bECS(req)}})
+	out, _ := r.Pack()
+	return out
+}
+
+func c17bECS(m *dns.Msg) string {
+	if o := m.IsEdns0(); o != nil {
+		for _, e := range o.Option {
+			if s, ok := e.(*dns.EDNS0_SUBNET); ok {
+				return s.Address.String()
+			}
+		}
+	}
+	return "none"
 }
 
 // c17bClassOf classifies the message Exchange handed back against the query.
@@ -246,4 +290,42 @@ func TestVerifC17Exchange(t *testing.T) {
 	both.mu.Lock()
 	both.oneShot = false
 	both.mu.Unlock()
+	// a reply that arrives after the client has given up belongs to nobody: queries that differ only in
+	// their ECS subnet (same ID, same question -- the ID on the upstream leg is the client's own, 0 for DoH
+	// and DoQ clients) each get the answer made for their own subnet, or an error
+	for rep := 0; rep < 2; rep++ {
+		udpOnly.mu.Lock()
+		udpOnly.udpClass, udpOnly.nlate = "latefirst", 0
+		udpOnly.mu.Unlock()
+		u := NewUpstreamPlain(&UpstreamPlainConfig{Network: NetworkUDP, Address: netip.MustParseAddrPort(udpOnly.udp.LocalAddr().String()), Timeout: 300 * time.Millisecond})
+		for k, sub := range []string{"192.0.2.0", "198.51.100.0", "203.0.113.0", "100.64.1.0"} {
+			req := new(dns.Msg).SetQuestion("late.c17.example.", dns.TypeTXT)
+			req.Id = 0
+			req.SetEdns0(1232, false)
+			req.IsEdns0().Option = append(req.IsEdns0().Option, &dns.EDNS0_SUBNET{Code: dns.EDNS0SUBNET, Family: 1, SourceNetmask: 24,
+				Address: net.ParseIP(sub).To4()})
+			ctx, cancel := context.WithTimeout(context.Background(), 400*time.Millisecond)
+			r, got, err := u.Exchange(ctx, req)
+			cancel()
+			cls := c17bClassOf(req, r)
+			if err == nil && r != nil && len(r.Answer) == 1 {
+				if t, ok := r.Answer[0].(*dns.TXT); !ok || len(t.Txt) != 1 || t.Txt[0] != "for:"+sub {
+					cls = "foreign" // a well-formed reply to this ID and question, made for another request
+				}
+			}
+			ev := map[string]any{"ev": "Exchange", "net": "udp", "udp": "valid", "tcp": "refused", "err": err != nil, "via": string(got),
+				"got": cls, "beh": 0, "late": k, "rep": rep}
+			if err != nil {
+				ev["got"] = "error"
+			}
+			if k == 0 || err != nil {
+				// the reply to the first query comes too late, which is as good as none; so does any reply
+				// that a loaded machine delivers after the client's time-out
+				ev["udp"] = "none"
+			}
+			out.Emit(ev)
+			time.Sleep(120 * time.Millisecond)
+		}
+		_ = u.Close()
+	}
 }
